@@ -385,6 +385,7 @@ struct H
    std::vector<Node *> nodes;    // by id
    Mgr mgr;
    bool failed; std::string fcls, fdetail;   // first violation noticed inside a library callback (thrown once the library call has returned)
+   std::set<uint64_t> withdrawn;     // F31, general form: times replaced by another answer of the same node within the current recalculation
    std::set<uint64_t> staleFolded;   // F31: answers that a later answer of the same node, within the same recalculation, could not withdraw from the running minimum
    bool inSweep, inRecalc, quiet, allowInq, staleMinPossible; uint64_t recalcNo; uint64_t sweepNo, curT; Node * running;
    std::vector<uint8_t> displaced, onStack; std::vector<uint64_t> rootT; std::vector<int> deferred;
@@ -518,11 +519,16 @@ struct H
       if ((inRecalc)&&(n->_lastQueryRecalc == recalcNo)&&(n->_want > n->_reported)) {staleMinPossible = true; staleFolded.insert(n->_reported); ctr[K_P_REQUERIED_LATER_SAME_RECALC]++;}
       // re-timed sideways (from inside another node's GetPulseTime()) during this recalculation, by whatever combination of operations, and now answering later than a
       // time of this node that the recalculation may already have folded in (the one in force when it began, or an earlier answer within it)
-      if ((inRecalc)&&(n->_inqTouchedRecalc == recalcNo))
+      // (... or lying below such a node: the whole branch of a sideways re-timed node may have been folded in through its aggregate before the re-timing, so a later answer of
+      //  any node of that branch -- here typically one re-timed from inside the re-asked node's own GetPulseTime() -- cannot be withdrawn either)
+      bool branchTouched = false; for (const Node * a = n; a; a = Parent(a)) if (a->_inqTouchedRecalc == recalcNo) {branchTouched = true; break;}
+      if ((inRecalc)&&(branchTouched))
       {
          const uint64_t folded = std::min(n->_startForce, (n->_lastQueryRecalc == recalcNo) ? n->_reported : kNever);
          if (n->_want > folded) {staleMinPossible = true; staleFolded.insert(folded); ctr[K_P_REQUERIED_LATER_SAME_RECALC]++;}
       }
+      // F31 in its general form: every time of this node that the running minimum of this recalculation may already contain and that this answer now replaces by something else
+      if (inRecalc) {const uint64_t prevUsed = (n->_lastQueryRecalc == recalcNo) ? n->_reported : n->_startForce; if ((prevUsed != kNever)&&(prevUsed != n->_want)) {withdrawn.insert(prevUsed); staleFolded.insert(prevUsed);}}
       n->_lastQueryRecalc = recalcNo;
       n->_reported = n->_want; n->_valid = true; n->_cause = CAUSE_NONE;
       th.u(0x51); th.u((uint64_t) n->_id); th.u(n->_want); th.u(callTime); th.u(prevTime);
@@ -597,7 +603,7 @@ struct H
    {
       const uint64 now = GetRunTime64();
       uint64 mn = kNever;
-      recalcNo++; staleMinPossible = false;
+      recalcNo++; staleMinPossible = false; withdrawn.clear();
       for (Node * n : nodes) if (n) n->_startForce = n->_valid ? n->_reported : kNever;
       inRecalc = true;
       for (int r=0; r<numRoots; r++) mgr.Recalc(*nodes[(size_t)r], now, mn);
@@ -623,6 +629,7 @@ struct H
       if ((mn < mm)&&(staleMinPossible)) Fail("root_time_too_early_after_later_answer_in_same_recalculation", "the manager was told to wake at " + TimeStr(mn) + " but the minimum over the " + U(nAtt) + " attached nodes' requested times is " + TimeStr(mm) + ": a node that had already answered in this recalculation was re-timed from inside another node's GetPulseTime() and answered a later time, but its first answer stays in the running minimum (effect: one early wake-up that pulses nothing)");
       // (the withdrawn-in-vain answer stays in the aggregates of that node's ancestors until their branch is recalculated again: while an earlier time hid it -- here a node
       //  that was due at once -- the same finding surfaces one or more recalculations later, with exactly that answer as the reported time)
+      if ((mn < mm)&&(withdrawn.count(mn))) {ctr[K_P_REQUERIED_LATER_SAME_RECALC]++; Fail("root_time_too_early_after_later_answer_in_same_recalculation", "the manager was told to wake at " + TimeStr(mn) + " but the minimum over the " + U(nAtt) + " attached nodes' requested times is " + TimeStr(mm) + ": " + TimeStr(mn) + " is a time that a node had in force (or answered) earlier in this recalculation and has since replaced by another answer; the running minimum handed to the manager cannot withdraw it (effect: one early wake-up that pulses nothing)");}
       if ((mn < mm)&&(staleFolded.count(mn))) {ctr[K_P_REQUERIED_LATER_SAME_RECALC]++; Fail("root_time_too_early_after_later_answer_in_same_recalculation", "the manager was told to wake at " + TimeStr(mn) + " but the minimum over the " + U(nAtt) + " attached nodes' requested times is " + TimeStr(mm) + ": " + TimeStr(mn) + " is the answer a node gave in an EARLIER recalculation before it was re-timed, from inside another node's GetPulseTime(), to something later within that same recalculation; it was hidden by an earlier time until now (effect: one early wake-up that pulses nothing)");}
       if (mn != mm) Fail("root_time_not_min", "the manager was told to wake at " + TimeStr(mn) + " but the minimum over the " + U(nAtt) + " attached nodes' requested times is " + TimeStr(mm) + (who ? " (" + Desc(who) + ")" : std::string()));
       th.u(0x52); th.u(mn);
